@@ -71,6 +71,21 @@ def spectral_radius(model, data):
     return lam
 
 
+def _admissible(model, data):
+    """cells whose state is physically admissible (rho > 0 and p > 0; h > 0): the property speaks of the flux Jacobian of such states.  A
+    trajectory that has left the admissible set can hold e.g. rho < 0 AND p < 0, for which the code's formula is finite but the
+    Jacobian's eigenvalues are something else (thorough-tier witness)"""
+    eqn = model.equation
+    d0 = np.asarray(data[0], float)
+    if eqn == "euler":
+        mom2 = np.sum(np.atleast_2d(np.asarray(data[1], float)) ** 2, axis=0)
+        with np.errstate(all="ignore"):
+            return (d0 > 0) & ((np.asarray(data[2], float) - 0.5 * mom2 / d0) > 0)
+    if eqn == "shallowwater":
+        return d0 > 0
+    return np.ones(d0.shape, bool)
+
+
 def mon_timestep(args, kwargs, result, tok):
     ctx = CTX
     if not probes.take("timestep"):
@@ -84,8 +99,7 @@ def mon_timestep(args, kwargs, result, tok):
     lam = spectral_radius(model, data)
     size = np.broadcast_to(np.asarray(dx, float), dt.shape)
     adm = np.isfinite(lam) & (lam > 0) & np.isfinite(dt)
-    if eqn == "euler":
-        adm &= (np.asarray(data[0]) > 0)
+    adm &= _admissible(model, data)
     if np.any(adm) and cfl > 0:
         ratio = dt[adm] * lam[adm] / (cfl * size[adm])
         j = int(np.argmax(np.abs(ratio - 1)))
@@ -129,6 +143,8 @@ def mon_calc_timestep(args, kwargs, result, tok):
         size = np.diff(np.asarray(m.xf, float)); cls = "calc_timestep:1d"
     lam = spectral_radius(disc.model, f.data)
     adm = np.isfinite(lam) & (lam > 0) & np.isfinite(dt) & (dt.shape == size.shape)
+    if dt.shape == size.shape:
+        adm = adm & _admissible(disc.model, f.data)
     if dt.shape != size.shape:
         ctx.true("shape", False, "calc_timestep/one-value-per-cell", {"shape": dt.shape}, cls=cls)
         return
